@@ -310,7 +310,7 @@ CONFIG = {
         "Link: only the first header line and its first <...> are read (model = code); link-values/lines AFTER the next link are covered by the theorems (trailer) and generated; a link-value of another relation BEFORE the next link is the known finding link-rel-ignored (C15_link_rel_first_refuted), generated in a separate stream whose failures carry only that signature",
         "Content-Type of a referrers response is compared verbatim with ocispec.MediaTypeImageIndex (hand-copied constant of the pinned image-spec dependency): parameters or another spelling count as 'no referrers API' (C15_content_type_exact) -- modelled as the code behaves, generated as a disturbance",
         "never over-read: the theorems speak of the reader abstraction `seen` (what passes limitReader is a prefix of the body of at most the limit, C15_limit/C15_limit_bytes) and of `limitSize`; how many bytes the decoder actually pulls is NOT modelled -- that clause is judged by the harness oracle with a counting body on every 200 answer (listings, Referrers wrapper incl. the index GET of the fallback, body cases); error bodies (non-200) are read by errutil under its own 8 KiB limit and are not judged",
-        "known finding over-read-digest-probe (landed fix 4dc7269 of the frozen tree): a manifest GET without Docker-Content-Digest whose body exceeds the limit is read up to limit+1 bytes before ErrSizeExceedsLimit; matched by mechanism (manifest exchange, no digest header, body > limit, exactly limit+1 bytes consumed, listing failed with nothing delivered); C15_digest_probe_partial / _over_read_refuted; content/oci: a reference in digest form can only be the content's own digest (C08 fix 2b70301), the generator checks that the digest of other content is refused and that Tags() skips digest entries",
+        "calculateDigestFromResponse (manifest GET without Docker-Content-Digest) is modelled (digest_probe, C15_digest_probe: Content-Length over the limit refused before reading, else limitReader; the theorem assumes Content-Length = body length, which the transport guarantees); its first version (limit+1 reader) is kept as digest_probe_v1 with a refuted witness, fixed finding over-read-digest-probe; content/oci: a reference in digest form can only be the content's own digest (C08 fix 2b70301), the generator checks that the digest of other content is refused and that Tags() skips digest entries",
         "the known finding link-rel-ignored is matched by mechanism: only exactly-once / next-request / spurious-error failures of a run in which some request IS the target of the rel=first link-value; every other signature in such a run is reported as itself",
         "every input stream has a coverage floor (harness exits non-zero = broken layer R when a stream is nearly empty)",
         "content/oci listTags is modelled on the resolver map as a list of (reference, digest of its descriptor) in any order; Go string order = byte-wise lexicographic order",
